@@ -1,0 +1,10 @@
+//! Verification hook (only compiled with `--cfg libp2p_verif`): lets the harness build
+//! [`Stream`](crate::Stream) values over in-memory substreams so that protocol handlers and
+//! handler events that carry streams can be exercised without a full `Swarm`.
+
+use libp2p_core::{muxing::SubstreamBox, Negotiated};
+
+/// Wraps [`crate::Stream::new`] with a fresh (unshared) active-stream counter.
+pub fn new_stream(stream: Negotiated<SubstreamBox>) -> crate::Stream {
+    crate::Stream::new(stream, crate::stream::ActiveStreamCounter::default())
+}
